@@ -38,6 +38,9 @@ func (g *customGen[V]) value(t *T) V {
 
 func (g *customGen[V]) maybeValue(t *T) (V, bool) {
 	t = newT(t.tb, t.s, flags.debug, nil)
+	// Runs last, after cleanup: a non-fatal failure signalled on the inner T fails the test case
+	// instead of being dropped together with the inner T.
+	defer t.failOnError()
 	defer t.cleanup()
 
 	defer func() {
